@@ -94,7 +94,7 @@ pub fn rop_strategy(idents: u8) -> impl Strategy<Value = ROp> {
         3 => (0..idents, 0u8..3, 0u8..3, right_strategy()).prop_map(|(by, room, group, right)| ROp::AddRight { by, room, group, right }),
         3 => (0..idents, 0u8..3, 0u8..3, 0..idents, prop_oneof![2 => Just(true), 1 => Just(false)])
             .prop_map(|(by, room, group, ident, enabled)| ROp::AddUser { by, room, group, ident, enabled }),
-        1 => (0..idents, 0u8..3, 0u8..3, 0..idents, prop_oneof![3 => Just(true), 1 => Just(false)])
+        2 => (0..idents, 0u8..3, 0u8..3, 0..idents, prop_oneof![1 => Just(true), 1 => Just(false)])
             .prop_map(|(by, room, group, ident, enabled)| ROp::AddUserAdmin { by, room, group, ident, enabled }),
         9 => (0..idents, 0..idents).prop_map(|(from, to)| ROp::Propagate { from, to }),
         12 => (0..idents, prop_oneof![1 => Just(0u16), 4 => 1u16..50], shape_strategy())
